@@ -369,7 +369,7 @@ func runC06N(env *Env, s Scenario) {
 var c07NStates = []string{"idle-blocked", "after-eof", "after-err-unconsumed", "after-err-consumed", "err-arriving", "eof-arriving", "data-arriving"}
 
 var c07NHoldPoints = [][2]string{
-	{"nc.reader", "nc.read.top"}, {"nc.reader", "nc.read.errsend"}, {"nc.reader", "chan.Read.errs"}, {"nc.reader", "chan.Read.flag"},
+	{"nc.reader", "nc.read.top"}, {"nc.reader", "nc.read.errsend"}, {"nc.reader", "nc.read.store"}, {"nc.reader", "chan.Read.errs"}, {"nc.reader", "chan.Read.flag"},
 	{"user", "nc.close.done"}, {"user", "chan.close.begin"}, {"user", "chan.close.flag"}, {"user", "chan.close.wait"},
 	{"chan.reader", "chan.read.top"}, {"chan.reader", "chan.read.ret"}, {"chan.reader", "chan.read.errsend"}, {"chan.reader", "chan.read.exit"},
 	{"chan.close.helper", "chan.close.helper"},
@@ -421,7 +421,13 @@ func genC07N(seed uint64, run int, tier string) Scenario {
 	case "eof-arriving":
 		sc.Ops = append(sc.Ops, NCOp{Kind: "lose:eof"})
 	case "data-arriving":
-		sc.Ops = append(sc.Ops, NCOp{Kind: "inject", A: `<notification xmlns="urn:ietf:params:xml:ns:netconf:notification:1.0"><eventTime>2024-01-01T00:00:00Z</eventTime></notification>`})
+		// a notification, or a complete reply nobody waits for any more (the read loop files
+		// replies by message-id whether or not a caller is there)
+		msg := `<notification xmlns="urn:ietf:params:xml:ns:netconf:notification:1.0"><eventTime>2024-01-01T00:00:00Z</eventTime></notification>`
+		if r.IntN(2) == 0 {
+			msg = fmt.Sprintf(`<rpc-reply xmlns="urn:ietf:params:xml:ns:netconf:base:1.0" message-id="%d"><ok/></rpc-reply>`, pick(r, 101, 102, 103, 7777))
+		}
+		sc.Ops = append(sc.Ops, NCOp{Kind: "inject", A: msg})
 	}
 	sc.Ops = append(sc.Ops, NCOp{Kind: "close"})
 	if r.IntN(3) == 0 {
